@@ -5,7 +5,8 @@ The parent has torch imported once; every tool run happens in a fork()ed child t
 (k, phase, kind):
 
   k      index (0-based, within this run) of the torch.save call / manifest line
-  phase  before_save | mid_write | after_save | after_manifest
+  phase  before_save | mid_write | after_save | after_manifest | in_compute (while the k-th utterance of
+         this run is being fetched / computed by the dataset, main process only)
   kind   hard  -> os._exit(137): user-space buffers are lost exactly as under SIGKILL
          soft  -> KeyboardInterrupt raised at that point; the interpreter unwinds normally
 
@@ -18,7 +19,7 @@ import sys
 import time
 import traceback
 
-PHASES = ("before_save", "mid_write", "after_save", "after_manifest")
+PHASES = ("before_save", "mid_write", "after_save", "after_manifest", "in_compute")
 KINDS = ("hard", "soft")
 
 
@@ -26,6 +27,15 @@ def _child(args, crash, delays, wfd):
     import torch
     from pydrobert.speech import command_line as cl
 
+    # a real invocation is a fresh process with fresh entropy; a fork()ed child would inherit the parent's
+    # RNG states, making "random" fallbacks look reproducible -- reseed everything from the OS
+    import random
+
+    import numpy
+
+    random.seed()
+    numpy.random.seed()
+    torch.seed()
     state = {"saves_started": 0, "saves_done": 0, "manifest_lines": 0, "computed": []}
 
     def report(extra=None):
@@ -81,6 +91,10 @@ def _child(args, crash, delays, wfd):
         real_getitem = ds.__getitem__
 
         def getitem(self, idx):
+            if crash is not None and crash["phase"] == "in_compute":
+                i = state["computed_calls"] = state.get("computed_calls", 0) + 1
+                if i - 1 == crash["k"]:
+                    die()
             if delays:
                 time.sleep(delays[idx % len(delays)] / 1000.0)
             out = real_getitem(self, idx)
